@@ -37,6 +37,10 @@ def pathHandler (op : String) (args : List String) : Option String :=
     pure (match Impl.sanitizedOutputPathCwd (← parseStr f) (parse (← parseStr c)) with
       | none => "bad"
       | some q => "ok " ++ showStr q.toStr)
+  | "path.outcwd-pinned", [f, c] => do
+    pure (match Impl.sanitizedOutputPathCwdPinned (← parseStr f) (parse (← parseStr c)) with
+      | none => "bad"
+      | some q => "ok " ++ showStr q.toStr)
   | "path.sanitize", [a] => do
     pure (match Impl.sanitizeArcname (← parseStr a) with
       | none => "err"
